@@ -5,7 +5,7 @@
 -/
 import CspuzModel.Proofs.C15Roundtrip
 import CspuzModel.Proofs.C15Term
-import CspuzModel.Spec.Rooms
+import CspuzModel.Proofs.C15Rooms
 import CspuzModel.Proofs.C15Puzzles
 namespace Cspuz.C15
 open Cspuz Cspuz.Ser
@@ -77,8 +77,7 @@ def statement_borders : Prop := ∀ h w : Nat, BordersRT h w
 
 theorem C15_borders_roundtrip : statement_borders := borders_roundtrip
 
-/-- **Rooms** (full strength; proved in `C15_rooms` when Proofs/C15Rooms.lean is complete, see the report):
-for all h, w ≥ 1 and every partition of the board into non-empty connected rooms, given in ANY order of rooms and
+/-- **Rooms** (full strength): for all h, w ≥ 1 and every partition of the board into non-empty connected rooms, given in ANY order of rooms and
 of cells, the produced text decodes – in any context – to the canonical form (rooms by least cell row-major, cells
 row-major). -/
 def statement_rooms : Prop :=
@@ -86,6 +85,9 @@ def statement_rooms : Prop :=
     ∃ t, ser (.rooms skip allow) ⟨h, w⟩ [roomsVal rooms] 0 = .ok (1, t) ∧
       ∀ pre rest, de (.rooms skip allow) ⟨h, w⟩ (pre ++ t ++ rest) pre.length
         = .ok (t.length, [roomsVal (canonRooms h w rooms)])
+
+theorem C15_rooms : statement_rooms := fun h w rooms skip allow hh hw hv =>
+  rooms_roundtrip h w hh hw (borders_roundtrip h w) rooms hv skip allow
 
 /-- **ValuedRooms** (full strength, statement only unless proved): the values stay attached to the same rooms. -/
 def statement_valued_rooms : Prop :=
